@@ -229,6 +229,9 @@ func (n *Net) completeLocked(d *pendingDial) {
 	server := &Conn{n: n, id: cid, side: "s", local: d.addr, remote: d.from}
 	client.peer, server.peer = server, client
 	client.in, server.in = &half{}, &half{}
+	pl := &pairLock{}
+	pl.cond = sync.NewCond(&pl.mu)
+	client.pl, server.pl = pl, pl
 	n.conns = append(n.conns, client)
 	l.queue = append(l.queue, server)
 	d.done, d.conn = true, client
@@ -250,8 +253,50 @@ type half struct {
 	total     int64  // bytes ever queued
 }
 
+// pairLock guards one connection (both endpoints) in free-delivery mode. In driver mode
+// everything is under Net.mu; in free mode -- used under the race detector -- a single
+// network-wide mutex would order every socket operation of every goroutine with every other
+// one and hide races in the code under test behind happens-before edges no real kernel makes.
+type pairLock struct {
+	mu   sync.Mutex
+	cond *sync.Cond
+}
+
+func (c *Conn) lock() {
+	if c.n.Free {
+		c.pl.mu.Lock()
+	} else {
+		c.n.mu.Lock()
+	}
+}
+
+func (c *Conn) unlock() {
+	if c.n.Free {
+		c.pl.mu.Unlock()
+	} else {
+		c.n.mu.Unlock()
+	}
+}
+
+func (c *Conn) wait() {
+	if c.n.Free {
+		c.pl.cond.Wait()
+	} else {
+		c.n.cond.Wait()
+	}
+}
+
+func (c *Conn) broadcast() {
+	if c.n.Free {
+		c.pl.cond.Broadcast()
+	} else {
+		c.n.cond.Broadcast()
+	}
+}
+
 // Conn is one endpoint of a simulated connection.
 type Conn struct {
+	pl            *pairLock
 	n             *Net
 	id            string
 	side          string // "c" (dialer) or "s" (acceptor)
@@ -268,9 +313,8 @@ type Conn struct {
 func (c *Conn) ID() string { return c.id + "/" + c.side }
 
 func (c *Conn) Read(p []byte) (int, error) {
-	n := c.n
-	n.mu.Lock()
-	defer n.mu.Unlock()
+	c.lock()
+	defer c.unlock()
 	for {
 		if c.closed {
 			return 0, net.ErrClosed
@@ -282,7 +326,7 @@ func (c *Conn) Read(p []byte) (int, error) {
 			k := copy(p, c.in.ready)
 			c.in.ready = c.in.ready[k:]
 			c.BytesIn += int64(k)
-			n.cond.Broadcast() // writers waiting for buffer space
+			c.broadcast() // writers waiting for buffer space
 			return k, nil
 		}
 		if c.in.fin {
@@ -294,14 +338,14 @@ func (c *Conn) Read(p []byte) (int, error) {
 		if len(p) == 0 {
 			return 0, nil
 		}
-		n.cond.Wait()
+		c.wait()
 	}
 }
 
 func (c *Conn) Write(p []byte) (int, error) {
 	n := c.n
-	n.mu.Lock()
-	defer n.mu.Unlock()
+	c.lock()
+	defer c.unlock()
 	out := c.peer.in
 	written := 0
 	for len(p) > 0 {
@@ -332,7 +376,7 @@ func (c *Conn) Write(p []byte) (int, error) {
 		}
 		space := n.SendBuf - len(out.inflight) - len(out.ready)
 		if space <= 0 {
-			n.cond.Wait()
+			c.wait()
 			continue
 		}
 		k := len(p)
@@ -348,7 +392,7 @@ func (c *Conn) Write(p []byte) (int, error) {
 		c.BytesOut += int64(k)
 		p = p[k:]
 		written += k
-		n.cond.Broadcast()
+		c.broadcast()
 		n.bumpLocked()
 	}
 	return written, nil
@@ -364,8 +408,8 @@ func (n *Net) bumpLocked() {
 // Close closes both directions (FIN towards the peer after in-flight data).
 func (c *Conn) Close() error {
 	n := c.n
-	n.mu.Lock()
-	defer n.mu.Unlock()
+	c.lock()
+	defer c.unlock()
 	if c.closed {
 		return nil
 	}
@@ -379,7 +423,7 @@ func (c *Conn) Close() error {
 	if len(c.in.ready) > 0 || len(c.in.inflight) > 0 {
 		c.in.ready, c.in.inflight = nil, nil
 	}
-	n.cond.Broadcast()
+	c.broadcast()
 	n.bumpLocked()
 	return nil
 }
@@ -387,14 +431,14 @@ func (c *Conn) Close() error {
 // CloseWrite half-closes the connection.
 func (c *Conn) CloseWrite() error {
 	n := c.n
-	n.mu.Lock()
-	defer n.mu.Unlock()
+	c.lock()
+	defer c.unlock()
 	out := c.peer.in
 	out.finQueued = true
 	if n.Free {
 		out.fin = true
 	}
-	n.cond.Broadcast()
+	c.broadcast()
 	n.bumpLocked()
 	return nil
 }
@@ -415,9 +459,8 @@ func (c *Conn) SetDeadline(t time.Time) error {
 }
 
 func (c *Conn) setDL(dl *time.Time, tm **time.Timer, t time.Time) {
-	n := c.n
-	n.mu.Lock()
-	defer n.mu.Unlock()
+	c.lock()
+	defer c.unlock()
 	*dl = t
 	if *tm != nil {
 		(*tm).Stop()
@@ -426,13 +469,13 @@ func (c *Conn) setDL(dl *time.Time, tm **time.Timer, t time.Time) {
 	if !t.IsZero() {
 		d := time.Until(t)
 		if d <= 0 {
-			n.cond.Broadcast()
+			c.broadcast()
 			return
 		}
 		*tm = time.AfterFunc(d, func() {
-			n.mu.Lock()
-			n.cond.Broadcast()
-			n.mu.Unlock()
+			c.lock()
+			c.broadcast()
+			c.unlock()
 		})
 	}
 }
@@ -541,18 +584,18 @@ func (n *Net) RefuseDial(e Event) {
 
 // Reset tears a connection down abruptly in both directions.
 func (n *Net) Reset(c *Conn) {
-	n.mu.Lock()
-	defer n.mu.Unlock()
+	c.lock()
+	defer c.unlock()
 	c.in.rst, c.peer.in.rst = true, true
 	c.in.inflight, c.peer.in.inflight = nil, nil
-	n.cond.Broadcast()
+	c.broadcast()
 }
 
 // Blackhole makes everything sent towards ep from now on vanish.
 func (n *Net) Blackhole(ep *Conn) {
-	n.mu.Lock()
+	ep.lock()
 	ep.in.blackhole = true
-	n.mu.Unlock()
+	ep.unlock()
 }
 
 // Conns returns the dialer-side endpoints of every connection ever made.
@@ -567,8 +610,8 @@ func (c *Conn) Peer() *Conn { return c.peer }
 
 // InFlight reports bytes queued towards this endpoint.
 func (c *Conn) InFlight() int {
-	c.n.mu.Lock()
-	defer c.n.mu.Unlock()
+	c.lock()
+	defer c.unlock()
 	return len(c.in.inflight)
 }
 
@@ -579,7 +622,14 @@ func (n *Net) CloseAll() {
 		l.closed = true
 	}
 	for _, c := range n.conns {
+		if n.Free {
+			c.pl.mu.Lock()
+		}
 		c.in.rst, c.peer.in.rst = true, true
+		if n.Free {
+			c.pl.cond.Broadcast()
+			c.pl.mu.Unlock()
+		}
 	}
 	for _, d := range n.dials {
 		if !d.done {
@@ -599,7 +649,13 @@ func (n *Net) SentBy(role string) int64 {
 	var total int64
 	for _, c := range n.conns {
 		if len(c.id) > len(role) && c.id[:len(role)+1] == role+">" {
+			if n.Free {
+				c.pl.mu.Lock()
+			}
 			total += c.BytesOut + 1
+			if n.Free {
+				c.pl.mu.Unlock()
+			}
 		}
 	}
 	for _, d := range n.dials {
